@@ -287,7 +287,10 @@ func (v *View) begin(c *Call) (*Call, *Fault) {
 	if hit != nil && (hit.Kind == "stall" || hit.Kind == "stall_ret") {
 		f.stalled++
 	}
-	if hit != nil && hit.Kind != "stall" && hit.Kind != "stall_ret" {
+	if hit != nil && hit.Kind == "shortok" && c.Op == "File.Readdir" {
+		// small directory batches are legal backend behaviour and change nothing for Readdir(-1): counted as an
+		// injected fault by Readdir itself, when it actually cuts a batch short
+	} else if hit != nil && hit.Kind != "stall" && hit.Kind != "stall_ret" {
 		f.injected++
 		c.Injected = hit.Kind
 	}
@@ -1318,10 +1321,19 @@ func (fl *File) Readdir(count int) ([]os.FileInfo, error) {
 	c, flt := fl.v.begin(fl.call("Readdir"))
 	var out []os.FileInfo
 	var err error
-	partial := -1
+	partial, batch := -1, 0
 	if flt != nil && flt.Kind == "short" {
 		// the directory read breaks off half-way: a prefix of the entries AND an error (os.File.Readdir does that)
 		partial = flt.Short
+	} else if flt != nil && flt.Kind == "shortok" {
+		// a positive count asks for "at most n" entries: this backend hands out small batches (no error, more to
+		// come). Readdir(-1) is not affected: it returns everything or an error.
+		if count > 0 {
+			batch = flt.Short
+			if batch < 1 {
+				batch = 1
+			}
+		}
 	} else if flt != nil {
 		if e := faultErr(flt); e != nil {
 			err = pe("readdir", fl.name, e)
@@ -1341,6 +1353,11 @@ func (fl *File) Readdir(count int) ([]os.FileInfo, error) {
 			all = all[fl.dirPos:]
 			if count > 0 && len(all) > count {
 				all = all[:count]
+			}
+			if batch > 0 && len(all) > batch {
+				all = all[:batch]
+				fl.v.fs.injected++
+				simrt.Fault("fs.short_readdir_batch")
 			}
 			if partial >= 0 && partial < len(all) {
 				all = all[:partial]
